@@ -49,7 +49,21 @@ func c08Run(t *testing.T, r *vRand, mb int, nops int, focus bool) (ops, obs []st
 				t.Fatal(err)
 			}
 		}
-		se.randomOp(r, focus, i, false, add)
+		panicked := false
+		func() {
+			defer func() {
+				if p := recover(); p != nil {
+					// a panic inside the filesystem: an observation no model explains; the history ends
+					add(`OStat "PANIC in the call"`, "VUnit", fmt.Sprintf("PANIC: %v", p))
+					se.tag("panic")
+					panicked = true
+				}
+			}()
+			se.randomOp(r, focus, i, false, add)
+		}()
+		if panicked {
+			break
+		}
 	}
 	return ops, obs, desc, se.tags()
 }
